@@ -14,6 +14,7 @@ from ..refs import rlp as R
 from ..refs import btc as B
 
 MODE_BOOTLOADER, MODE_SIGNER, MODE_UI_HEARTBEAT = 2, 3, 4
+MAX_RLP_CTX_DEPTH = 5    # srlp.h
 MAX_CHUNK = 80           # AUTH_MAX_EXCHANGE_SIZE / MAX_CHUNK_SIZE (srlp.h, bc_advance.c)
 
 AUTH_PATHS = [bytes.fromhex("052c00008000000080000000800000000000000000"),
@@ -401,7 +402,7 @@ class PowHsm(Device):
             self.fail(E_RLP)
         if rem == 0:
             try:
-                R.decode(st["rbuf"], strict=False)
+                R.decode(st["rbuf"], strict=False, max_depth=MAX_RLP_CTX_DEPTH)
             except R.RlpError:
                 self.fail(E_RLP)
             if not self.receipt_matches:
@@ -507,7 +508,7 @@ class PowHsm(Device):
     def block_complete(self, st, cur, adv):
         cmd = st["cmd"]
         try:
-            fields = R.decode(cur["buf"], strict=False)
+            fields = R.decode(cur["buf"], strict=False, max_depth=MAX_RLP_CTX_DEPTH)
         except R.RlpError:
             self.fail(BC_RLP_INVALID)
         if not isinstance(fields, list) or any(isinstance(f, list) for f in fields):
